@@ -13,6 +13,10 @@ import (
 func stdB64(s string) string { return base64.StdEncoding.EncodeToString([]byte(s)) }
 
 func runExtra(r *common.Rand) {
+	nc := run.Scale(300, 20000)
+	for i := 0; i < nc; i++ {
+		runConc(genConc(r))
+	}
 	if !crashkit.Available() {
 		run.Extra["crash_injection"] = "strace injection unavailable: K cases skipped"
 		run.Count("crash:strace-unavailable")
@@ -38,6 +42,19 @@ func fixedCrashes() []crashCase {
 
 func replayExtra(c map[string]string) {
 	switch c["kind"] {
+	case "S":
+		cc := concCase{Kind: "S"}
+		if v, ok := c["init"]; ok && v != "null" {
+			s := v
+			cc.Init = &s
+		}
+		if err := json.Unmarshal([]byte(c["threads"]), &cc.Threads); err != nil {
+			fmt.Fprintln(os.Stderr, "bad replay threads:", err)
+			os.Exit(2)
+		}
+		for i := 0; i < 200; i++ { // schedules are not controlled: repeat
+			runConc(cc)
+		}
 	case "K":
 		cc := crashCase{Kind: "K", K: -1}
 		if v, ok := c["init"]; ok && v != "null" {
